@@ -74,6 +74,16 @@ CHECKS = [
         "value written with one revision must be read with the other exactly as the Specification says, in both directions.",
         "note": "trusted: ref/codec.py and the explicit convert() expectation (checked against each other on every case)",
     },
+    {
+        "property_id": "C12",
+        "level": "exploration",
+        "design_ref": "DESIGN.md 4/C12",
+        "technique": "exhaustive enumeration of (constant type, boundary initializer) pairs through the public reader against a compliance predicate",
+        "text": "Every constant-capable type (all widths 1..64, all cast-mode spellings, three float widths) and every inadmissible carrier x every "
+        "initializer at, just inside and just outside each boundary (exact float limits +- 1e-30), non-integers, booleans, strings of "
+        "length 0/1/2, non-ASCII / escaped / surrogate code points, sets: accepted iff compliant, stored value exact, rejection is InvalidDefinitionError.",
+        "note": "trusted: the compliance predicate expected() in c12.py; initializer alphabet is finite per type",
+    },
 ]
 
 _TODO = "check not built yet in this round (see DESIGN.md 9, implementation order)"
